@@ -116,10 +116,14 @@ func runtimeOverlay(dir string) (map[string]string, error) {
 	if err != nil {
 		return nil, err
 	}
-	// Map iteration order and map hash seeds get a stream of their own, and a new
+	// Map hash seeds and iteration offsets are one constant: the order in which a
+	// map is iterated then depends on its own history only, not on how many other
+	// maps the process has created or iterated before (the race-detector build
+	// creates a different number of maps than the plain build, and with a stream the
+	// two builds iterated net/http's idle-connection table in different orders). A new
 	// M (created at load-dependent moments: sysmon hand-offs, blocking system
 	// calls) must not draw from a stream that simulated code observes.
-	s, err = mustReplace(s, "func maps_rand() uint64 {\n\treturn rand()\n", "func maps_rand() uint64 {\n\tif simDeterministic {\n\t\treturn simRand64(&simMapState)\n\t}\n\treturn rand()\n", "map rand stream")
+	s, err = mustReplace(s, "func maps_rand() uint64 {\n\treturn rand()\n", "func maps_rand() uint64 {\n\tif simDeterministic {\n\t\treturn 0x9E3779B97F4A7C15\n\t}\n\treturn rand()\n", "map rand stream")
 	if err != nil {
 		return nil, err
 	}
